@@ -58,6 +58,17 @@ def features(stream):
     return f
 
 
+POLICY_VISIBLE = {"all": None, "g1": {"g1", "g3"}, "g2": {"g2"}}
+
+
+def consumers(stream, visible):
+    """number of per-graph loaders the server starts for the stream (runs of elements naming an existing graph)"""
+    gs = [e["g"] for e in stream if visible is None or e["g"] in visible]
+    gs = [g for g in gs if not g.endswith("__schema__")]
+    runs = [g for n, g in enumerate(gs) if n == 0 or gs[n - 1] != g]
+    return sum(1 for g in runs if g in ("g1", "g2"))
+
+
 def listing_diff(spec_g, real_g):
     """scaled streams: compare the complete vertex and edge listings with the abstract graph"""
     bad = []
@@ -113,9 +124,9 @@ class Judge:
     def judge(self, rq, o, want, extra_low=0):
         """rq: the request, o: harness answer, want: abstract outcome {store, ins, errLow}"""
         ctx = self.ctx
-        tgt = rq["target"] + (" (scheduled consumers)" if rq.get("order") else "")
+        tgt = rq["target"] + (" (consumers committing in another order)" if rq.get("order") else " (consumers starting late)" if rq.get("late") else "")
         scaled = rq.get("scaled", False)
-        rep = dict(target=rq["target"], policy=rq.get("pol"), batch=rq.get("batch"), order=rq.get("order"),
+        rep = dict(target=rq["target"], policy=rq.get("pol"), batch=rq.get("batch"), order=rq.get("order"), late=rq.get("late"),
                    stream=rq["stream"] if len(rq["stream"]) <= 12 else dict(base=rq.get("base"), scaled_to=len(rq["stream"])),
                    specified=dict(ins=want["ins"], errLow=want["errLow"], store=want["store"] if not scaled else "(large)"),
                    observed={k: v for k, v in o.items() if k not in ("obs", "trace", "i")})
@@ -139,10 +150,11 @@ class Judge:
             rep["aspects"] = aspects
             rep["observed_store"] = {g: dict(V=obs[g].get("V"), E=obs[g].get("E")) for g in obs if isinstance(obs[g], dict)} if not scaled else "(large)"
             cls = ",".join(sorted(storecmp.classes(aspects)))
-            trig = ""
-            if rq["target"] == "kvgraph" and want["errLow"] > 0 and any(a.endswith("-missing") for a in aspects):
-                trig = " after an invalid element"
-            ctx.diverge("bulk %s: %s%s" % (tgt, cls, trig),
+            if rq["target"] == "kvgraph" and want["errLow"] > 0:
+                cls = "an invalid element discards valid elements of the same stream"
+            elif rq["target"].startswith("server") and consumers(rq["stream"], POLICY_VISIBLE[rq.get("pol", "all")]) >= 2:
+                cls = "elements lost, misplaced or applied out of order when the stream switches graphs"
+            ctx.diverge("bulk %s: %s" % (tgt, cls),
                         "after the load the observable state differs from adding the valid elements one at a time", rep)
             return True
         if rq["target"] in ("server", "server+filter"):
@@ -203,7 +215,8 @@ def run(ctx):
         "sim": dict(module="BulkLoad", cfg="BulkLoad_sim.cfg", simulate="num=%d" % (40 if quick else 400), depth=6, workers=1),
         "scaled": dict(module="BulkLoad", cfg="BulkLoad_scaled.cfg", simulate="num=%d" % (2 if quick else 12), depth=4, workers=1),
         "waits": dict(module="BulkImpl", cfg="BulkImpl_waits.cfg" if quick else "BulkImpl_waits4.cfg"),
-        "pinned": dict(module="BulkImpl", cfg="BulkImpl_pinned.cfg" if quick else "BulkImpl_pinned4.cfg"),
+        "pinned": dict(module="BulkImpl", cfg="BulkImpl_pinned_a.cfg" if quick else "BulkImpl_pinned_full.cfg"),
+        "pinned_m": dict(module="BulkImpl", cfg="BulkImpl_pinned_m.cfg"),
         "sbatch": dict(module="StreamBatchImpl", cfg="StreamBatchImpl_quick.cfg" if quick else "StreamBatchImpl.cfg"),
         "shared": dict(module="StreamBatchImpl", cfg="StreamBatchImpl_shared.cfg", expect_violation=True),
         "edit": dict(module="EditRequests", cfg="EditRequests.cfg"),
@@ -213,7 +226,7 @@ def run(ctx):
         kw = dict(jobs[name])
         module, cfg = kw.pop("module"), kw.pop("cfg")
         kw.setdefault("workers", 8)
-        return name, ctx.tlc("bulk", module, cfg, timeout=1500, label=name, count=(name in ("gen", "waits", "pinned", "sbatch", "states")), **kw)
+        return name, ctx.tlc("bulk", module, cfg, timeout=1500, label=name, count=(name in ("gen", "waits", "pinned", "pinned_m", "sbatch", "states")), **kw)
 
     res = {}
     with ThreadPoolExecutor(max_workers=3) as ex:
@@ -234,17 +247,21 @@ def run(ctx):
         raise Inconclusive("BulkStates/BulkLoad printed no observation table / initial store")
     streams = dedup(res["gen"].msgs.get("stream", []) + res["sim"].msgs.get("stream", []), "stream")
     scaled = dedup(res["scaled"].msgs.get("scaled", []), "stream")
-    preds = res["pinned"].msgs.get("pred", [])
-    if res["waits"].msgs.get("pred"):
-        raise Inconclusive("the repaired-loop model disagrees with the abstract clause")
+    # predictions of the pinned-loop model: one per (stream, policy, kind)
+    preds, seenp = [], set()
+    for p in res["pinned"].msgs.get("pred", []) + res["pinned_m"].msgs.get("pred", []):
+        k = (skey_el(p["stream"]), p["pol"], p["kind"])
+        if k not in seenp:
+            seenp.add(k)
+            preds.append(p)
     pred_kinds = collections.Counter(p["kind"] for p in preds)
     minimal = {}
     for p in preds:
         k = p["kind"]
-        if k not in minimal or len(p["stream"]) < len(minimal[k]["stream"]):
+        if k not in minimal or (len(p["stream"]), len(p["sched"])) < (len(minimal[k]["stream"]), len(minimal[k]["sched"])):
             minimal[k] = p
     ctx.notes.append(dict(model_predictions_for_the_pinned_loop={k: dict(count=v, minimal=[[e["g"], e["k"], e["r"].get("id", "")] for e in minimal[k]["stream"]],
-                                                                         policy=minimal[k]["pol"], commit_order=minimal[k]["order"]) for k, v in pred_kinds.items()},
+                                                                         policy=minimal[k]["pol"], schedule=minimal[k]["sched"]) for k, v in pred_kinds.items()},
                           streambatch_shared_accumulator="TLC: NoLostError %s on the model with read/write appends (a lead for C17, no verdict here)" %
                                                          ("violated" if res["shared"].violation else "holds")))
     if not streams:
@@ -254,6 +271,7 @@ def run(ctx):
     # ---------------------------------------------------------------- 2. requests
     reqs = []
     thin = int(os.environ.get("VERIF_C18_THIN", "1") or 1)      # development aid: replay every n-th stream only
+    all_streams = streams
     if thin > 1:
         streams = streams[::thin]
         scaled = scaled[::thin]
@@ -262,13 +280,20 @@ def run(ctx):
     for n, s in enumerate(scaled):
         reqs += requests_for(s, n, scaled=True)
     # the model's commit-order witnesses, replayed with that schedule imposed on the consumer goroutines
-    by_stream = {skey_el(s["stream"]): s for s in streams}
-    sched = [p for p in preds if p["kind"].startswith("store differs") and p["pol"] == "all"]
-    sched = sched[:: max(1, len(sched) // (12 if quick else 60))]
+    by_stream = {skey_el(s["stream"]): s for s in all_streams}
+    sched = []
+    for cls, cap in (("commit order", 12 if quick else 60), ("started late", 40 if quick else 300)):
+        ps = [p for p in preds if cls in p["kind"] and p["pol"] == "all"]
+        sched += ps[:: max(1, len(ps) // cap)]
     for p in sched:
         s = by_stream.get(skey_el(p["stream"]))
-        if s is not None:
-            reqs.append((dict(kind="stream", stream=s["stream"], target="server", pol="all", order=p["order"]), s["out"]["all"], 0))
+        if s is None:
+            continue
+        if "commit order" in p["kind"]:
+            order = [x[1] for x in p["sched"] if x[0] == "commit"]
+            reqs.append((dict(kind="stream", stream=s["stream"], target="server", pol="all", order=order), s["out"]["all"], 0))
+        else:
+            reqs.append((dict(kind="stream", stream=s["stream"], target="server", pol="all", late=True), s["out"]["all"], 0))
     edits = dedup([dict(req=r) for r in res["edit"].msgs.get("req", [])], "req")
     lines = [dict(setup=True, init=init)]
     for i, (rq, want, extra) in enumerate(reqs):
@@ -302,7 +327,7 @@ def run(ctx):
     ndiff = 0
     groups = collections.defaultdict(dict)
     for i, (rq, want, extra) in enumerate(reqs):
-        if rq.get("order"):
+        if rq.get("order") or rq.get("late"):
             continue
         groups[skey_el(rq["stream"])][rq["target"] + ":" + rq.get("pol", "")] = (rq, outs[i], i)
     for k, g in groups.items():
